@@ -35,15 +35,22 @@ func (g *rig) followUp(wait time.Duration) bool {
 		m = g.cf.Methods[0]
 	}
 	q := &rq{Method: m, Key: "followup", Status: 200, Size: 8}
+	if !g.inline && g.yield == nil {
+		g.do(q) // guarded: reports the deadlock itself
+		return !q.Hung
+	}
 	done := make(chan struct{})
 	go func() {
-		g.do(q)
+		g.doInline(q)
 		close(done)
 	}()
 	select {
 	case <-done:
 		return true
 	case <-time.After(wait):
+		g.mu.Lock()
+		g.dead = true
+		g.mu.Unlock()
 		return false
 	}
 }
@@ -122,6 +129,9 @@ func (g *rig) fillCheck(class string) {
 	ins := func(i int) bool {
 		q := mk(i)
 		g.do(q)
+		if q.Hung {
+			return false
+		}
 		if q.Panic != "" {
 			g.reportPanic(q, g.panicClass(q), map[string]any{"during": "fill after quiescence (" + class + ")"})
 			return false
